@@ -107,7 +107,8 @@ def _r1_output(repo, report, rule):
                 comp = v if isinstance(v, (ast.SetComp, ast.ListComp, ast.GeneratorExp)) else next((x for x in ast.walk(v) if isinstance(x, (ast.SetComp, ast.ListComp, ast.GeneratorExp))), None)
                 over_all = comp is not None and len(comp.generators) == 1 and src(comp.generators[0].iter) == (fn.args.vararg.arg if fn.args.vararg else "paths") \
                     and isinstance(comp.elt, ast.Call) and chain(comp.elt.func) == "detect_format_from_name" and [src(a_) for a_ in comp.elt.args] == [src(comp.generators[0].target)]
-                applied = [n for n in ast.walk(fn) if isinstance(n, ast.Assign) and src(n.targets[0]) in ("kwargs['fileformat']", 'kwargs["fileformat"]') and tname and tname in src(n.value)]
+                applied = [n for n in ast.walk(fn) if isinstance(n, ast.Assign) and isinstance(n.targets[0], ast.Subscript) and isinstance(n.targets[0].slice, ast.Constant) and n.targets[0].slice.value == "fileformat"
+                           and tname and any(isinstance(x, ast.Name) and x.id == tname for x in ast.walk(n.value))]
                 one = [n for n in ast.walk(fn) if isinstance(n, ast.If) and src(n.test).replace(" ", "") in (f"len({tname})==1", f"1==len({tname})") and any(a_ in list(ast.walk(n)) for a_ in applied)]
                 facts_c.update({"is_set": is_set, "over_all_paths": over_all, "applied_when": src(one[0].test) if one else None, "applied_as": src(applied[0].value) if applied else None})
                 ok_c = (is_set and over_all and len(one) == 1 and len(applied) == 1) if (over_all and applied) else None
